@@ -55,6 +55,8 @@ def d_hostile(g, tier):
         ops += gen.hostile_templates_session(g)
     for proto in ("v9", "ipfix"):
         ops += gen.many_templates_session(g, 1100 if tier == "quick" else 4000, proto)
+    for i in range(6 if tier == "quick" else 60):
+        ops += gen.dup_templates_session(g)
     return ops
 
 
